@@ -289,6 +289,13 @@ Definition wc_mu (s : wc_state) : nat := fold_right (fun th a => wc_mu_th th + a
 Definition wc_effective (acts : list wc_act) : bool :=
   match acts with [] => false | [ABlocked] => false | _ => true end.
 
+(* number of steps of a run that executed something *)
+Fixpoint wc_eff_steps (s : wc_state) (sched : list wc_item) : nat :=
+  match sched with
+  | [] => 0
+  | it :: r => let '(s1, acts) := wc_step s it in (if wc_effective acts then 1 else 0) + wc_eff_steps s1 r
+  end.
+
 (* yield site a thread is parked at, as the harness names it:
    0 none, 1 LoadState, 2 BeforeLock, 3 AfterLock, 4 AfterUnlock, 5 inside callback, 6 select *)
 Definition wc_site_pc (pc : wc_pc) : nat :=
